@@ -216,6 +216,15 @@ def c08 (h : H) : List String :=
 def c09 (h : H) : List String :=
   let os := ops h
   let ff := firstFault h
+  -- closing a transport cancels the context of every handler still running: a handler that only returns on
+  -- cancellation has returned by the end of a session whose transports were all closed
+  ((invocations h).filterMap fun (_, ep, hd, m, _, _) =>
+    if m ≠ "wait" then none else
+    match handlerEnd h ep hd with
+    | some _ => none
+    | none =>
+      if h.any (fun e => match e with | .cle ep' "teardown" => ep' == ep | _ => false)
+      then some "C09:handler-not-cancelled-when-the-transport-closed" else none) ++
   (invocations h).filterMap fun (_, ep, hd, _, n, _) =>
     match handlerEnd h ep hd with
     | some (ih, _, _, true) =>
